@@ -335,7 +335,9 @@ var c04Hostile = [][]byte{
 	[]byte(`{"type":"Place","latitude":1e999}`), []byte(`{"type":"Place","radius":1.5}`), []byte(`{"type":"Place","radius":99999999999999999999}`), []byte(`{"type":"Collection","totalItems":-1}`), []byte(`{"type":"Collection","totalItems":1e30}`),
 	[]byte(`{"type":"Collection","items":{"type":"Collection","items":{"type":"Collection"}}}`), []byte(`{"type":"Question","closed":"yes"}`), []byte(`{"type":"Question","closed":{}}`), []byte(`{"type":"Question","oneOf":1}`),
 	[]byte(`{"type":"Link","href":1}`), []byte(`{"type":"Link","href":{"id":"x"}}`), []byte(`{"type":"Link","height":-1}`), []byte(`{"type":"Link","rel":[1]}`), []byte(`{"type":"Mention","name":null}`), []byte(`{"type":"Tombstone","formerType":1}`),
-	[]byte(`{"type":"Tombstone","deleted":[]}`), []byte(`{"type":"Emoji"}`), []byte(`{"type":""}`), []byte(`{"type":"note"}`), []byte(`{"id":"x","id":"y","type":"Note","type":"Create"}`), []byte(`[{"type":"Note"},{"type":"Note"}]`), []byte(`[1,2,3]`),
+	[]byte(`{"type":"Tombstone","deleted":[]}`), []byte(`{"type":"IRI","id":"https://a.b/c"}`), []byte(`{"type":"ItemCollection","id":"https://a.b/c","items":["https://a.b/d"]}`), []byte(`{"type":"IRICollection","id":"https://a.b/c"}`),
+	[]byte(`{"type":"Note","attachment":{"type":"IRI","id":"https://a.b/c"},"tag":[{"type":"ItemCollection"},{"type":"IRICollection","name":"x"}]}`),
+	[]byte(`{"type":"Emoji"}`), []byte(`{"type":""}`), []byte(`{"type":"note"}`), []byte(`{"id":"x","id":"y","type":"Note","type":"Create"}`), []byte(`[{"type":"Note"},{"type":"Note"}]`), []byte(`[1,2,3]`),
 	[]byte(`["https://a.b/c",["https://a.b/d"]]`), []byte(`"https://a.b/c"`), []byte(`"not a url"`), []byte(` {"type":"Note"} `), []byte(`{"type":"Note"}x`), []byte(`{"type":"Note"}{"type":"Note"}`), []byte("{\"type\":\"Note\",\"name\":\"a\x00b\"}"),
 	[]byte(`{"@context":1,"type":"Note"}`), []byte(`{"type":"Create","object":{"type":"Create","object":{"type":"Create","object":"https://a.b/c"}}}`), []byte(`{"type":"Relationship","subject":1,"object":2,"relationship":3}`),
 	[]byte(`{"type":"Profile","describes":[]}`), []byte(`{"type":"OrderedCollectionPage","startIndex":"1","orderedItems":"x"}`), []byte(`{"type":"Note","url":1}`), []byte(`{"type":"Note","url":[1,{"href":1}]}`), []byte(`{"type":"Note","mediaType":1}`),
